@@ -303,4 +303,62 @@ theorem cfiOf_link {a : Arch} {w : World} {mask : Nat} {mem : Mem} {f : Frame} {
                 cases a <;> simp at h64 ⊢
               simp only [Bool.false_or, hb, Bool.false_eq_true, if_false, if_neg h64]
 
+/-! ### one `get_caller_frame` -/
+
+/-- what the epilogue of `get_caller_frame` needs of a linked frame -/
+theorem cfiLink_epilogue {a : Arch} {w : World} {mask : Nat} {mem : Mem} {f : Frame} {e : Exp}
+    (hl : cfiLink w a mask mem f e = true) :
+    4096 ≤ e.ret ∧ (f.ctx.sp < e.sp ∨ (a.leafOk = true ∧ f.trust = .context ∧ e.sp = f.ctx.sp)) := by
+  unfold cfiLink linkCfi at hl
+  simp only [Bool.and_eq_true, decide_eq_true_eq] at hl
+  obtain ⟨⟨⟨h4096, _⟩, _⟩, hm⟩ := hl
+  refine ⟨h4096, ?_⟩
+  cases hrec : cfiRecordAt w f.instruction with
+  | none => rw [hrec] at hm; cases hm
+  | some rec =>
+    rw [hrec] at hm
+    simp only [Bool.and_eq_true] at hm
+    obtain ⟨_, hm⟩ := hm
+    split at hm
+    · rename_i hleaf
+      simp only [Bool.and_eq_true, decide_eq_true_eq] at hm
+      exact Or.inr ⟨hleaf.2.1, by simpa using hleaf.1, hm.1.1.1⟩
+    · simp only [Bool.and_eq_true, decide_eq_true_eq] at hm
+      exact Or.inl hm.1.1.1
+
+theorem cfiView_transfer {a : Arch} {w : World} {mask : Nat} {mem : Mem} {f st : Frame} (e : Exp)
+    (hv : CfiView a f st) :
+    CfiInv a f ∧ cfiLink w a mask mem f e = cfiLink w a mask mem st e ∧ cfiFrame w a f e = cfiFrame w a st e := by
+  obtain ⟨h1, h2, h3, h4⟩ := hv
+  refine ⟨?_, ?_, ?_⟩
+  · unfold CfiInv at *
+    rw [h1, h2]; exact h4
+  · unfold cfiLink
+    rw [h1, h2, h3]
+  · unfold cfiFrame
+    rw [h1, h3]
+
+/-- **one `get_caller_frame` on a frame covered by a canonical STACK CFI record** -/
+theorem step_cfi {env : Env} {a : Arch} {w : World} {mem : Mem} (harch : env.arch = a)
+    (hcfi : env.cfi = cfiOf a w (modTable w.mods) (cfiTables w) env.mask mem)
+    (f : Frame) (g : Option Frame) (st : Frame) (e : Exp)
+    (hv : CfiView a f st) (hl : cfiLink w a env.mask mem st e = true) :
+    step env mem f g = some (cfiFrame w a st e) := by
+  obtain ⟨hinv, hle, hfe⟩ := cfiView_transfer (w := w) (mask := env.mask) (mem := mem) e hv
+  rw [← hle] at hl
+  rw [← hfe]
+  obtain ⟨h4096, hsp⟩ := cfiLink_epilogue hl
+  have hc := cfiOf_link (g := g) hinv hl
+  unfold step
+  simp only [harch, hinv.1, candidate, hcfi, hc]
+  unfold epilogue
+  have hip : (cfiFrame w a f e).ctx.ip = e.ret := rfl
+  have hsp' : (cfiFrame w a f e).ctx.sp = e.sp := rfl
+  rw [hip, hsp', nullish_eq, if_neg (by omega)]
+  rcases hsp with h | ⟨h1, h2, h3⟩
+  · rw [if_neg (by omega)]
+    rfl
+  · rw [if_neg (by simp [h1, h2, h3])]
+    rfl
+
 end MdModel.Walk
